@@ -131,7 +131,7 @@ fn materialise(w: &World) -> std::io::Result<Vec<PathBuf>> {
     Ok(made)
 }
 
-fn one(acc: &mut Acc, c: &IncCase) {
+pub fn one(acc: &mut Acc, c: &IncCase) {
     let tag = std::thread::current().name().unwrap_or("m").to_string();
     let cwd = std::env::current_dir().unwrap();
     let w = world(c, &tag, &cwd);
@@ -320,6 +320,13 @@ fn ignore_in_expansion(acc: &mut Acc, present: bool) {
     }
 }
 
+/// the include rule looks at the process' working directory: move into a scratch one
+pub fn enter_cwd(prop: &str) {
+    let cwd = crate::core::run::verif_dir().join(".work").join(prop).join("cwd");
+    let _ = std::fs::create_dir_all(&cwd);
+    std::env::set_current_dir(&cwd).expect("chdir");
+}
+
 pub fn cases(tier: Tier) -> Space<IncCase> {
     let places = Space::of((0u8..8).collect::<Vec<_>>());
     let orders = Space::of(vec![vec![], vec![1u8], vec![2], vec![1, 2], vec![2, 1]]);
@@ -339,9 +346,7 @@ pub fn build(tier: Tier) -> Check<'static> {
         "the process changes its working directory to /verif/.work/C10/cwd; file names are unique per worker thread".into(),
         "reference preprocessor models/ppref.rs with the search rule exactly as the property states it".into(),
     ];
-    let cwd = crate::core::run::verif_dir().join(".work").join("C10").join("cwd");
-    let _ = std::fs::create_dir_all(&cwd);
-    std::env::set_current_dir(&cwd).expect("chdir");
+    enter_cwd("C10");
     {
         let sp = cases(tier);
         c.parts.push(Part::new("include-graphs", sp.len(), "include placement / search order / contents / styles", move |i, acc| one(acc, &sp.get(i))));
